@@ -92,5 +92,5 @@ AllInv ==
 View == <<srv, calls, pm,
           [p \in Peers |-> [d \in Dirs |-> [fsm[p][d] EXCEPT !.sess = IF @ = 0 THEN 0 ELSE 1]]],
           conn, [p \in Peers |-> [dial[p] EXCEPT !.k = IF @ = 0 THEN 0 ELSE 1]],
-          [gh EXCEPT !.nsess = [p \in Peers |-> 0], !.ncb = [p \in Peers |-> [n \in CbNames |-> 0]]]>>
+          [gh EXCEPT !.nsess = [p \in Peers |-> 0], !.ncb = [p \in Peers |-> [n \in CbNames \cup PmGateNames |-> 0]]]>>
 =============================================================================
